@@ -31,29 +31,6 @@ theorem mintS_no_panic {s : SState} {a : Int} {key : AccKey} : mintS s a key ≠
           · intro h; cases h
           · intro h; cases h
 
-theorem createSynth_bank {b b' : State} {id : Nat} {kind : SKind} {key : AccKey} (h : createSynth b id kind key = .ok b') :
-    b'.supply = b.supply ∧ b'.validators = b.validators ∧ b'.mult = b.mult ∧ b'.assets = b.assets ∧
-    b'.riskFactor = b.riskFactor := by
-  obtain ⟨_, _, _, _, _, e⟩ := createSynth_ok h
-  subst e; exact ⟨rfl, rfl, rfl, rfl, rfl⟩
-
-theorem deleteSynth_bank {b b' : State} {id : Nat} {kind : SKind} {key : AccKey} (h : deleteSynth b id kind key = .ok b') :
-    b'.supply = b.supply ∧ b'.validators = b.validators ∧ b'.mult = b.mult ∧ b'.assets = b.assets ∧
-    b'.riskFactor = b.riskFactor := by
-  obtain ⟨_, _, _, _, e⟩ := deleteSynth_ok h
-  subst e; exact ⟨rfl, rfl, rfl, rfl, rfl⟩
-
-theorem getOrCreateAcc_bank (b : State) (key : AccKey) :
-    (getOrCreateAcc b key).supply = b.supply ∧ (getOrCreateAcc b key).validators = b.validators ∧
-    (getOrCreateAcc b key).mult = b.mult ∧ (getOrCreateAcc b key).assets = b.assets ∧
-    (getOrCreateAcc b key).riskFactor = b.riskFactor := by
-  unfold getOrCreateAcc
-  split <;> exact ⟨rfl, rfl, rfl, rfl, rfl⟩
-
-theorem osmoTokens_congr {b b' : State} (hm : b'.mult = b.mult) (ha : b'.assets = b.assets) (hr : b'.riskFactor = b.riskFactor)
-    (d : Nat) (x : Int) : osmoTokens b' d x = osmoTokens b d x := by
-  unfold osmoTokens; rw [hm, ha, hr]
-
 /-! ## SuperfluidDelegate -/
 
 /-- the mint of a delegation has room: the value of the lock fits on top of the supply. -/
